@@ -13,7 +13,7 @@ def check(run, only=None):
     if only in (None, "B"):
         n, r = (3, 2) if run.tier == "quick" else (4, 2)
         from vlib import corpus
-        gs = list(grammars(n, r)) + corpus.classic() + corpus.rule_orders() + corpus.random_grammars(3000 if run.tier == "quick" else 40000)
+        gs = list(grammars(n, r)) + corpus.classic() + corpus.rule_orders() + corpus.lookahead_chains() + corpus.nullable_lists() + corpus.random_grammars(3000 if run.tier == "quick" else 40000)
         params = {"tier": run.tier}
         results = fw.pmap(table_grammar_worker, [("C05", g, params) for g in gs])
         out = fw.merge_worker_results(results, RULE.format(n=n, r=r))
